@@ -363,15 +363,33 @@ fn generator_name<S: Source, const N: usize>(s: &mut S) {
     note!(s, "{:?}.parse::<GeneratorParameters>() = {:?}", text, parsed);
     observe!(parsed.is_ok(), "a generator name is accepted");
     observe!(parsed.is_err(), "a generator name is rejected");
+    // the accepted spelling, ignoring ASCII case and `-` vs `_` (a more lenient reader is not a
+    // violation), must name the generator that is selected
+    let names = |candidate: &[u8]| -> bool {
+        if candidate.len() != name.len() {
+            return false;
+        }
+        let mut i = 0;
+        let mut same = true;
+        while i < N {
+            if i < name.len() {
+                let c = name[i].to_ascii_lowercase();
+                let c = if c == b'-' { b'_' } else { c };
+                same &= c == candidate[i];
+            }
+            i += 1;
+        }
+        same
+    };
     match &parsed {
         Ok(GeneratorParameters::RetainLines) => {
-            claim!(s, name == b"retain_lines" || name == b"retain-lines", "only `retain_lines` (or the legacy `retain-lines`) selects the retain_lines generator");
+            claim!(s, names(b"retain_lines"), "only `retain_lines` (or the legacy `retain-lines`) selects the retain_lines generator");
         }
         Ok(GeneratorParameters::Dense { column_span }) => {
-            claim!(s, name == b"dense" && *column_span == 80, "only `dense` selects the dense generator, with the default column span");
+            claim!(s, names(b"dense") && *column_span == 80, "only `dense` selects the dense generator, with the default column span");
         }
         Ok(GeneratorParameters::Readable { column_span }) => {
-            claim!(s, name == b"readable" && *column_span == 80, "only `readable` selects the readable generator, with the default column span");
+            claim!(s, names(b"readable") && *column_span == 80, "only `readable` selects the readable generator, with the default column span");
         }
         Err(_) => {}
     }
